@@ -372,6 +372,8 @@ def run_under_binding(engine, ctx, b: Binding, body):
 
 # ----------------------------------------------------------------------------------------------------------------
 def loop_ordinal(env: Env, st) -> int:
+    if getattr(st, "_pyvc_ordinal", None) is not None:
+        return st._pyvc_ordinal  # a comprehension executed as the loop it abbreviates (effectful_comprehension)
     fn = env.finfo.node if env.finfo is not None else None
     if fn is None:
         return 0
@@ -823,7 +825,64 @@ def eval_comprehension(engine, ctx, e, env: Env, kind: str):
         it = engine.eval(ctx, gen.iter, env)
         return V.MappedIter(None, it, node=e, env=env)
     it = engine.eval(ctx, gen.iter, env)
+    if kind == "list" and not is_concrete_iterable(it) and comprehension_has_effects(engine, e, env):
+        r = effectful_comprehension(engine, ctx, e, gen, it, env)
+        if r is not NotImplemented:
+            return r
     return build_comprehension(engine, ctx, e, gen, it, env, kind)
+
+
+def comprehension_has_effects(engine, e, env: Env) -> bool:
+    """the element expression hands a materialised object of a mutable class to a call (receiver or argument)"""
+    for vn in names_in_calls([ast.Expr(value=e.elt)]):
+        found, o = env.lookup(vn)
+        if found and isinstance(o, Obj) and o.fields is not None and engine._is_mutable(o.cls):
+            return True
+    return False
+
+
+def effectful_comprehension(engine, ctx, e, gen, it, env: Env):
+    """`[f(x, obj) for x in <symbolic domain>]` where f may modify `obj`: the comprehension is the loop
+           tmp = []
+           for x in <domain>: tmp.append(f(x, obj))
+       and is executed through the same loop-invariant machinery; its loop ordinal is the ordinal a `for` statement at
+       this place would have (number of for / while statements that precede it in the function)."""
+    if gen.ifs:
+        raise EngineLimit("list comprehension with effects and a filter over a symbolic domain")
+    fn = env.finfo.node if env.finfo is not None else None
+    ordinal = 0
+    if fn is not None:
+        for node in ast.walk(fn):
+            if node is e:
+                break
+            if isinstance(node, (ast.For, ast.While)):
+                ordinal += 1
+    qual = env.finfo.qualname if env.finfo is not None else ""
+    inv = engine.reg.loops.get((qual, ordinal))
+    if inv is None:
+        if isinstance(it, V.RangeV):
+            # (the generic machinery would evaluate the element once: not sound for an element with effects)
+            raise EngineLimit("list comprehension with effects on a mutable object over a symbolic range: no loop invariant "
+                              "registered for loop %d of %s" % (ordinal, qual))
+        return NotImplemented  # as before: the generic comprehension machinery decides (or reports its own limit)
+    tmp = "comp!result"
+    env.vars[tmp] = PyList([])
+    body = [ast.Expr(value=ast.Call(func=ast.Attribute(value=ast.Name(id=tmp, ctx=ast.Load()), attr="append", ctx=ast.Load()),
+                                    args=[e.elt], keywords=[]))]
+    loop = ast.For(target=gen.target, iter=gen.iter, body=body, orelse=[], lineno=getattr(e, "lineno", 0), col_offset=0)
+    ast.fix_missing_locations(loop)
+    loop._pyvc_ordinal = ordinal
+    if type(it).__name__ == "DynV":
+        from . import dynmodel as _dm
+
+        it = _dm.iter_seq(engine.lib, ctx, it)
+    if isinstance(it, V.BytesV):
+        it = bytes_as_seq(ctx, it)
+    try:
+        exec_for_invariant(engine, ctx, loop, env, it, inv)
+        return env.vars[tmp]
+    finally:
+        env.vars.pop(tmp, None)
 
 
 def comp_elt(e):
